@@ -124,7 +124,10 @@ var prattPrefixOutside = map[string]string{
 // the statements of parseExpression before its switch (depth guard, regexp re-lex, identifier and numeric arms)
 const prattPrefixPrologue = `p.exprLevel++ if NestedExprLimit < p.exprLevel { p.failMessage("too many nested expressions") return nil } if p.tt == DivToken || p.tt == DivEqToken { p.tt, p.data = p.l.RegExp() if p.tt == ErrorToken { p.fail("regular expression") return nil } } var left IExpr precLeft := $P if IsIdentifier(p.tt) && p.tt != AsyncToken { left = p.scope.Use(p.data) p.next() suffix := p.parseExpressionSuffix(left, prec, precLeft) p.exprLevel-- return suffix } else if IsNumeric(p.tt) { left = &LiteralExpr{p.tt, p.data} p.next() suffix := p.parseExpressionSuffix(left, prec, precLeft) p.exprLevel-- return suffix }`
 
-const prattPrefixEpilogue = `suffix := p.parseExpressionSuffix(left, prec, precLeft) p.exprLevel-- return suffix`
+// the statements after the switch.  The first block (dce4c26) only concerns a left operand that is an array or object
+// literal (a possible arrow parameter pattern: what follows it is parsed with assumeArrowFunc off); both literals are in
+// the outside list of the switch, and the flag only steers scope bookkeeping, so the block adds no row.
+const prattPrefixEpilogue = `if p.assumeArrowFunc { switch left.(type) { case *ArrayExpr, *ObjectExpr: p.assumeArrowFunc = false suffix := p.parseExpressionSuffix(left, prec, precLeft) p.assumeArrowFunc = true p.exprLevel-- return suffix } } suffix := p.parseExpressionSuffix(left, prec, precLeft) p.exprLevel-- return suffix`
 
 const prattPrefixDefault = `p.fail("expression") return nil`
 
